@@ -24,7 +24,17 @@ fn ca_facts(der: &[u8]) -> Option<Value> {
 			is_ca = e["ca"].as_bool().unwrap_or(false);
 		}
 	}
-	Some(json!({"subject": v["subject"], "subjectRaw": v["subjectRaw"], "subjectMulti": v["subjectMulti"], "ski": ski, "isCa": is_ca, "serial": v["serial"]}))
+	// the characters of every subject value as code points (for the alphabet rules of the specification)
+	let cps: Vec<Value> = v["subject"]
+		.as_array()
+		.unwrap()
+		.iter()
+		.map(|e| {
+			let t = String::from_utf8_lossy(&crate::der::unhex(&sval(e, "val"))).to_string();
+			Value::Array(t.chars().map(|c| json!(c as u32)).collect())
+		})
+		.collect();
+	Some(json!({"subject": v["subject"], "subjectCps": cps, "subjectRaw": v["subjectRaw"], "subjectMulti": v["subjectMulti"], "ski": ski, "isCa": is_ca, "serial": v["serial"]}))
 }
 
 fn asn1_type(kind: &str) -> openssl::asn1::Asn1Type {
@@ -49,6 +59,7 @@ pub fn openssl_ca(d: &Value, key: &KeyInfo) -> Result<Vec<u8>, String> {
 	use openssl::x509::X509Builder;
 	let e = |x: openssl::error::ErrorStack| x.to_string();
 	let pkey = PKey::private_key_from_der(&key.pkcs8).map_err(e)?;
+	let mut patches: Vec<(Vec<u8>, Vec<u8>)> = Vec::new();
 	// the name is built through the C interface: it alone lets an attribute join the previous RDN (multi-valued RDN)
 	let name = {
 		use foreign_types::ForeignType;
@@ -68,7 +79,20 @@ pub fn openssl_ca(d: &Value, key: &KeyInfo) -> Result<Vec<u8>, String> {
 			};
 			let field = std::ffi::CString::new(sval(ent, "ty")).map_err(|x| x.to_string())?;
 			let set = if ent["join"].as_bool().unwrap_or(false) { -1 } else { 0 };
-			let ok = unsafe { openssl_sys::X509_NAME_add_entry_by_txt(raw, field.as_ptr() as *const _, asn1_type(&kind).as_raw(), enc.as_ptr(), enc.len() as std::os::raw::c_int, -1, set) };
+			let mut ok = unsafe { openssl_sys::X509_NAME_add_entry_by_txt(raw, field.as_ptr() as *const _, asn1_type(&kind).as_raw(), enc.as_ptr(), enc.len() as std::os::raw::c_int, -1, set) };
+			if ok != 1 && !enc.is_empty() && enc.len() < 120 {
+				// OpenSSL refuses to BUILD a value outside the alphabet of its type: build a placeholder of the same length and
+				// put the real octets into the finished certificate (the signature is then wrong; importing does not look at it)
+				let _ = openssl::error::ErrorStack::get();
+				let ph = vec![b'Q'; enc.len()];
+				ok = unsafe { openssl_sys::X509_NAME_add_entry_by_txt(raw, field.as_ptr() as *const _, asn1_type(&kind).as_raw(), ph.as_ptr(), ph.len() as std::os::raw::c_int, -1, set) };
+				let tag = asn1_type(&kind).as_raw() as u8;
+				let mut from = vec![tag, ph.len() as u8];
+				from.extend(&ph);
+				let mut to = vec![tag, enc.len() as u8];
+				to.extend(&enc);
+				patches.push((from, to));
+			}
 			if ok != 1 {
 				return Err(format!("X509_NAME_add_entry_by_txt: {}", openssl::error::ErrorStack::get()));
 			}
@@ -144,7 +168,20 @@ pub fn openssl_ca(d: &Value, key: &KeyInfo) -> Result<Vec<u8>, String> {
 		_ => MessageDigest::sha256(),
 	};
 	b.sign(&pkey, md).map_err(e)?;
-	b.build().to_der().map_err(e)
+	let mut der = b.build().to_der().map_err(e)?;
+	for (from, to) in patches {
+		// subject and issuer both carry the name: patch every occurrence
+		let mut i = 0;
+		while i + from.len() <= der.len() {
+			if der[i..i + from.len()] == from[..] {
+				der[i..i + to.len()].copy_from_slice(&to);
+				i += from.len();
+			} else {
+				i += 1;
+			}
+		}
+	}
+	Ok(der)
 }
 
 fn import_logged(der: &[u8], via: &str, case: &str, args: Value, key: &LiveKey, out: &mut Out) -> Option<CertificateParams> {
